@@ -46,17 +46,16 @@ def run(ctx):
     # ------------------------------------------------------------ with_inherited
     f = ctx.fn(IF + "with_inherited")
     if f:
-        ren = ctx.find_calls(f, r"^ident_case::RenameRule::apply_to_")
-        ctx.ob("C01.G.name-rule-callee", f.key, "rename call", [mir.callee_of(t) for _, t in ren] == ["ident_case::RenameRule::apply_to_field"], "calls %s" % [mir.callee_of(t) for _, t in ren])
-        for blk, t in ren:
-            ctx.requires("C01.G.explicit-name-wins", f, blk, "apply_to_field", [r"is_some\(self\.attr_name\)=False"])
-            a0, a1 = ctx.expr(f, t["args"][0]), ctx.expr(f, t["args"][1])
-            ctx.ob("C01.G.name-rule-args", f.key, "apply_to_field(parent.rename_rule, ident)", a0 == "a2.rename_rule" and "to_string(self.ident)" in a1, "args (%s, %s)" % (a0, a1))
-        asg = ctx.find_field_assigns(f, "attr_name", 1)
-        ctx.ob("C01.G.name-assigned-once", f.key, "self.attr_name = …", len(asg) == 1, "%d assignments" % len(asg))
-        for blk, i, st in asg:
-            ctx.requires("C01.G.explicit-name-wins", f, blk, "self.attr_name = Some(rule(ident))", [r"is_some\(self\.attr_name\)=False"])
-            ctx.ob("C01.G.name-value", f.key, "value", "Some{ident_case::RenameRule::apply_to_field(" in ctx.expr(f, st["r"]), ctx.expr(f, st["r"])[:160])
+        # the rename rule is applied to the Rust name only when no explicit name was given, whether the
+        # call stands in an `if`, in a closure handed to or_else / get_or_insert_with, or in a helper
+        ren = ctx.find_calls_deep(f, r"^ident_case::RenameRule::apply_to_", helpers=1)
+        ctx.ob("C01.G.name-rule-callee", f.key, "rename call", [mir.callee_of(t) for _, t, _ in ren] == ["ident_case::RenameRule::apply_to_field"], "calls %s" % [mir.callee_of(t) for _, t, _ in ren])
+        for _, t, o in ren:
+            b_ = [x for x, y in o.calls() if y is t][0]
+            ctx.requires("C01.G.explicit-name-wins", o, b_, "apply_to_field", [r"is_some\(self\.attr_name\)=False"])
+            a0, a1 = ctx.expr(o, t["args"][0]), ctx.expr(o, t["args"][1])
+            ctx.ob("C01.G.name-rule-args", f.key, "apply_to_field(parent.rename_rule, ident)", re.search(r"(a2|parent)\.rename_rule$", a0) is not None and re.search(r"to_string\((self(\.|__))?ident\)", a1) is not None, "args (%s, %s)" % (a0, a1))
+        common.inherit_when_absent(ctx, "C01.G.explicit-name-wins", "C01.G.name-value", f, "attr_name", r"Some\{ident_case::RenameRule::apply_to_field\(")
         default_synthesis_rules(ctx, "C01.G")
         # the field's own default is kept when present
         # whatever the layout (a tuple match with a pass-through arm, or a guard clause that returns
